@@ -909,6 +909,60 @@ func SetG$u(s string) { G$u = s }
 lib.SetG$u($in)
 $out := lib.G$u
 
+### libglobalreader xpkg globals
+@lib
+// H$u is a global written by the main package.
+var H$u string
+
+// ReadH$u reads it.
+func ReadH$u() string { return H$u }
+@body
+lib.H$u = $in
+$out := lib.ReadH$u()
+
+### libglobalboth xpkg globals
+@lib
+var hidden$u string
+
+// PutI$u stores.
+func PutI$u(s string) { hidden$u = s }
+
+// GetI$u loads.
+func GetI$u() string { return hidden$u }
+@body
+lib.PutI$u($in)
+$out := lib.GetI$u()
+
+### globalgenericreader globals generics
+@decls
+var gq$u string
+
+func readq$u[T any](d T) string {
+	_ = d
+	return gq$u
+}
+@body
+gq$u = $in
+$out := readq$u(0)
+
+### localtypea structs localtype
+@body
+type record struct{ a, b string }
+r$u := record{a: $in, b: "x"}
+rt.Nop2(r$u.b)
+$out := r$u.a
+
+### localtypeb structs localtype
+@body
+type record struct {
+	n int
+	b string
+	a string
+}
+r$u := record{n: 1, b: $in, a: "y"}
+rt.Nop2(r$u.a)
+$out := r$u.b
+
 ### capvalue closures
 @body
 f$u := func() string { return $in }
